@@ -422,8 +422,16 @@ pub fn load_known_findings() -> Vec<KnownFinding> {
     let p = format!("{}/known_findings.json", proc::verif_root());
     match std::fs::read_to_string(&p) {
         Ok(s) => {
-            let v: Value = serde_json::from_str(&s).unwrap_or(json!({"findings": []}));
-            serde_json::from_value(v["findings"].clone()).unwrap_or_default()
+            // a file that does not parse must not silently turn every listed finding into an alarm
+            let parsed: Result<Vec<KnownFinding>, String> =
+                serde_json::from_str::<Value>(&s).map_err(|e| e.to_string()).and_then(|v| serde_json::from_value(v["findings"].clone()).map_err(|e| e.to_string()));
+            match parsed {
+                Ok(f) => f,
+                Err(e) => {
+                    eprintln!("INFRASTRUCTURE: {} does not parse: {}", p, e);
+                    std::process::exit(2);
+                }
+            }
         }
         Err(_) => vec![],
     }
